@@ -375,7 +375,7 @@ def settle_gc():
     that dies sends `decref` through the module-level eventual queue); automatic collection is switched off by the
     check so that no finalizer runs in the middle of a scenario"""
     with E.quiet():
-        gc.collect()
+        gc.collect(1)      # the young generations hold everything the last scenarios created (automatic GC is off)
         E.reset_clock()
 
 
